@@ -15,6 +15,7 @@ pub fn err_json(e: &LinearizationError) -> Value {
         LinearizationError::VarAlreadyDeclared(n) => json!({"kind":"VarAlreadyDeclared","name":n}),
         LinearizationError::UnimplementedExpression(_) => json!({"kind":"UnimplementedExpression"}),
         LinearizationError::NonBinaryLogicOperand(_) => json!({"kind":"NonBinaryLogicOperand"}),
+        LinearizationError::NonFiniteConstant(_) => json!({"kind":"NonFiniteConstant"}),
         LinearizationError::MissingFiniteBounds { variables, expression, .. } => {
             let mut vs = vec![];
             collect_vars(expression, &mut vs);
@@ -29,6 +30,7 @@ pub fn lin_event(id: &str, model: Model) -> Value {
         Ok(v) => v,
         Err(u) => return json!({"id":id,"out":"unverifiable","why":u.0}),
     };
+    let src_exact = !src.to_string().contains("\"d\":0");
     let declared: HashSet<String> = model.domain().keys().cloned().collect();
     let mut ev = src;
     ev["id"] = json!(id);
@@ -49,18 +51,21 @@ pub fn lin_event(id: &str, model: Model) -> Value {
             ev["err"] = err_json(&e);
             ev["errtext"] = json!(e.to_string());
         }
-        Ok(Ok(lm)) => match lm_json(&lm, &|n| !declared.contains(n)) {
-            Ok(v) => {
-                ev["out"] = json!("ok");
-                ev["lm"] = v;
-                ev["text"] = json!(lm.to_string());
+        Ok(Ok(lm)) => {
+            ev["out"] = json!("ok");
+            ev["shape"] = lm_shape(&lm);
+            ev["text"] = json!(lm.to_string());
+            match lm_json(&lm, &|n| !declared.contains(n)) {
+                Ok(v) => {
+                    ev["lm"] = v;
+                    ev["exact"] = json!(src_exact);
+                }
+                Err(u) => {
+                    ev["exact"] = json!(false);
+                    ev["why"] = json!(u.0);
+                }
             }
-            Err(u) => {
-                ev["out"] = json!("unverifiable");
-                ev["why"] = json!(u.0);
-                ev["raw"] = serde_json::to_value(&lm).unwrap_or(Value::Null);
-            }
-        },
+        }
     }
     ev
 }
